@@ -1,8 +1,103 @@
 /-
-  C02 — writers encode every tree faithfully (theorems being added)
+  C02 — writers encode every tree faithfully
 -/
 import TT.Spec.Formats
+import TT.Lemmas.Write
 namespace TT.Props.C02
 open TT TT.Tree TT.Spec
+open TT.Lemmas.Write
+
+/-! ### XML attribute escaping -/
+
+theorem unescape_escape (s : Str) : unescapeXml (xmlEscape s) = s := by
+  rw [xmlEscape_eq]; exact unescapeXml_flatMap esc1 esc1_inverts s
+
+theorem quoteattr_spec (s : Str) :
+    ∃ q inner, quoteattr s = q :: (inner ++ [q]) ∧ (q = '"' ∨ q = '\'') ∧ q ∉ inner ∧ '<' ∉ inner ∧ unescapeXml inner = s := by
+  rw [quoteattr_eq]
+  by_cases h1 : (xmlEscape s).contains '"' = true
+  · by_cases h2 : (xmlEscape s).contains '\'' = true
+    · rw [if_pos h1, if_pos h2]
+      refine ⟨'"', (xmlEscape s).flatMap quot1, by simp, Or.inl rfl, ?_, ?_, ?_⟩
+      all_goals rw [xmlEscape_eq, List.flatMap_assoc]; simp only [esc1_quot1]
+      · exact not_mem_flatMap _ _ dq_not_mem_esc2 s
+      · exact not_mem_flatMap _ _ lt_not_mem_esc2 s
+      · exact unescapeXml_flatMap esc2 esc2_inverts s
+    · rw [if_pos h1, if_neg h2]
+      refine ⟨'\'', xmlEscape s, by simp, Or.inr rfl, by simpa using h2, ?_, unescape_escape s⟩
+      rw [xmlEscape_eq]; exact not_mem_flatMap _ _ lt_not_mem_esc1 s
+  · rw [if_neg h1]
+    refine ⟨'"', xmlEscape s, by simp, Or.inl rfl, by simpa using h1, ?_, unescape_escape s⟩
+    rw [xmlEscape_eq]; exact not_mem_flatMap _ _ lt_not_mem_esc1 s
+
+/-! ### parentheses inside tokens -/
+
+theorem replaceParens_no_brackets (s : Str) :
+    ∀ c ∈ replaceParens s, c ≠ '(' ∧ c ≠ ')' ∧ c ≠ '[' ∧ c ≠ ']' ∧ c ≠ '{' ∧ c ≠ '}' := by
+  intro c hc
+  rw [replaceParens_eq] at hc
+  have key : ∀ x : Char, (x = '(' ∨ x = ')' ∨ x = '[' ∨ x = ']' ∨ x = '{' ∨ x = '}') → c ≠ x := by
+    intro x hx e; subst e
+    exact not_mem_replFold c _ (brackets_vals c (by rcases hx with h | h | h | h | h | h <;> simp [h])) s (Or.inr (brackets_keys c hx)) hc
+  exact ⟨key _ (by simp), key _ (by simp), key _ (by simp), key _ (by simp), key _ (by simp), key _ (by simp)⟩
+
+
+theorem replaceParens_id_of_no_key (s : Str) (h : ∀ kv ∈ Gen.BRACKETS, ¬ kv.1 <:+: s) : replaceParens s = s := by
+  rw [replaceParens_eq]; exact replFold_id _ s h
+
+theorem replaceParens_id' (s : Str) (h : ∀ c ∈ s, c ≠ '(' ∧ c ≠ ')' ∧ c ≠ '[' ∧ c ≠ ']' ∧ c ≠ '{' ∧ c ≠ '}')
+    (h2 : ∀ kv ∈ Gen.BRACKETS, 1 < kv.1.length → ¬ kv.1 <:+: s) : replaceParens s = s := by
+  apply replaceParens_id_of_no_key
+  intro kv hkv hi
+  rcases brackets_keys_shape kv hkv with ⟨hl, _⟩ | hm
+  · exact h2 kv hkv hl hi
+  · simp only [List.mem_cons, List.not_mem_nil, or_false] at hm
+    have hc : ∀ c, kv.1 = [c] → c ∈ s := fun c e => by
+      rw [e] at hi; exact hi.subset (List.mem_singleton.2 rfl)
+    rcases hm with e | e | e | e | e | e
+    all_goals (have := h _ (hc _ e); simp at this)
+
+theorem replaceParens_idem' (s : Str) (h2 : ∀ kv ∈ Gen.BRACKETS, 1 < kv.1.length → ¬ kv.1 <:+: replaceParens s) :
+    replaceParens (replaceParens s) = replaceParens s :=
+  replaceParens_id' _ (replaceParens_no_brackets s) h2
+
+theorem replaceParens_idem_of_no_dash (s : Str) (h : '-' ∉ s) : replaceParens (replaceParens s) = replaceParens s := by
+  apply replaceParens_idem'
+  intro kv hkv hl hi
+  rcases brackets_keys_shape kv hkv with ⟨_, hd⟩ | hm
+  · have : '-' ∈ replaceParens s := hi.subset hd
+    rw [replaceParens_eq] at this
+    rcases mem_replFold _ _ _ this with h' | ⟨kv', hk', hc⟩
+    · exact h h'
+    · exact brackets_vals '-' (by simp) kv' hk' hc
+  · simp only [List.mem_cons, List.not_mem_nil, or_false] at hm
+    rcases hm with e | e | e | e | e | e <;> simp [e] at hl
+
+example : replaceParens (replaceParens "--LRB--".toList) ≠ replaceParens "--LRB--".toList := by decide
+example : (∀ c ∈ "-LRB-".toList, c ≠ '(' ∧ c ≠ ')' ∧ c ≠ '[' ∧ c ≠ ']' ∧ c ≠ '{' ∧ c ≠ '}') ∧ replaceParens "-LRB-".toList ≠ "-LRB-".toList := by decide
+
+theorem writeTerminals_plain (t : Tree) :
+    writeTerminals {} t = .ok ((t.terminals.map fun l => (l.fields.word.getD []) ++ [' ']).flatten ++ ['\n']) := by
+  simp [writeTerminals]
+
+theorem writeTerminals_rejects (o : OutOpts) (t : Tree) (h1 : o.terminalsPos = true) (h2 : o.posOnly = true) :
+    writeTerminals o t = .error .valueError := by
+  simp [writeTerminals, h1, h2]
+
+theorem writeBrackets_refuses_iff (o : OutOpts) (t : Tree) (h : o.skipDisco = false) :
+    (∃ e, writeBrackets o t = .error e ∧ gapDegree t > 0) ∨ (gapDegree t = 0 ∧ writeBrackets o t = (bracketsSub o o.emptyRoot t).map some) := by
+  unfold writeBrackets
+  by_cases hg : gapDegree t > 0
+  · left; exact ⟨.valueError, by simp [hg, h], hg⟩
+  · right; exact ⟨by omega, by simp [hg]⟩
+
+theorem writeBrackets_skips_iff (o : OutOpts) (t : Tree) (h : o.skipDisco = true) :
+    (writeBrackets o t = .ok none ↔ gapDegree t > 0) := by
+  unfold writeBrackets
+  by_cases hg : gapDegree t > 0
+  · simp [hg, h]
+  · simp only [hg, if_false, iff_false]
+    cases bracketsSub o o.emptyRoot t <;> simp [Except.map]
+
 
 end TT.Props.C02
